@@ -29,7 +29,7 @@ import ast
 import hashlib
 import pathlib
 from .model import Func, AnalysisError
-from .terms import Recon, subst, simplify, show, atoms, walk, _texty
+from .terms import Recon, subst, simplify, show, atoms, walk, _texty, mkbool, mknot, mkphi
 from .norm import Normaliser
 
 SPEC_DIR = pathlib.Path(__file__).resolve().parent / "specs"
@@ -199,10 +199,158 @@ def _resort(t):
     return subst(t, rule)
 
 
+def _phimerge(t):
+    """nested decisions with a common default are one decision on a conjunction:
+         if a: pass            if not a and b:        if not a:
+         else:                     X                      if b:
+             if b: X                                          X
+    all give phi(not a and b, X, default)"""
+    def rule(x):
+        if not (x and x[0] == 'phi'):
+            return None
+        c1, a, b = x[1], x[2], x[3]
+        if b[0] == 'phi':
+            c2, p, q = b[1], b[2], b[3]
+            if q == a:                      # phi(c1, X, phi(c2, Y, X))
+                return mkphi(mkbool('And', mknot(c1), c2), p, a)
+            if p == a:                      # phi(c1, X, phi(c2, X, Y))
+                return mkphi(mkbool('And', mknot(c1), mknot(c2)), q, a)
+        if a[0] == 'phi':
+            c2, p, q = a[1], a[2], a[3]
+            if q == b:                      # phi(c1, phi(c2, Y, X), X)
+                return mkphi(mkbool('And', c1, c2), p, b)
+            if p == b:                      # phi(c1, phi(c2, X, Y), X)
+                return mkphi(mkbool('And', c1, mknot(c2)), q, b)
+        return None
+    prev = None
+    while prev is not t:
+        prev = t
+        t = subst(t, rule)
+    return t
+
+
+_POS = {'NotEq': 'Eq', 'IsNot': 'Is', 'NotIn': 'In'}
+MAX_ATOMS = 10
+
+
+def _bool_atoms(c, out):
+    """the atoms of a condition seen as a boolean formula (and / or / not / != / is not / not in are structure)"""
+    if c[0] == 'bool' and c[1] in ('And', 'Or'):
+        _bool_atoms(c[2], out); _bool_atoms(c[3], out)
+    elif c[0] == 'un' and c[1] == 'Not':
+        _bool_atoms(c[2], out)
+    elif c[0] == 'cmp' and c[1] in _POS:
+        out.setdefault(digest(('cmp', _POS[c[1]], c[2], c[3])), ('cmp', _POS[c[1]], c[2], c[3]))
+    elif c[0] == 'const' and isinstance(c[1], bool):
+        pass
+    else:
+        out.setdefault(digest(c), c)
+
+
+def _bool_eval(c, val):
+    if c[0] == 'bool' and c[1] == 'And':
+        return _bool_eval(c[2], val) and _bool_eval(c[3], val)
+    if c[0] == 'bool' and c[1] == 'Or':
+        return _bool_eval(c[2], val) or _bool_eval(c[3], val)
+    if c[0] == 'un' and c[1] == 'Not':
+        return not _bool_eval(c[2], val)
+    if c[0] == 'cmp' and c[1] in _POS:
+        return not val[digest(('cmp', _POS[c[1]], c[2], c[3]))]
+    if c[0] == 'const' and isinstance(c[1], bool):
+        return c[1]
+    return val[digest(c)]
+
+
+def _phitable(t):
+    """a tree of decisions is replaced by its decision table: which leaf is selected under each truth assignment of the atoms of its
+    conditions.  if/elif chains, nested ifs, guard clauses with continue, conjunctions and de Morgan forms of one decision
+    structure all have the same table.  (Evaluation order and short-circuiting are not represented.)"""
+    memo = {}
+
+    def go(x):
+        if not isinstance(x, tuple):
+            return x
+        k = id(x)
+        hit = memo.get(k)
+        if hit is not None and hit[0] is x:
+            return hit[1]
+        if x and x[0] == 'phi':
+            r = table(x)
+        else:
+            r = tuple(go(y) for y in x)
+        memo[k] = (x, r)
+        return r
+
+    def leaves(x, conds, acc):
+        if x and x[0] == 'phi':
+            leaves(x[2], conds + [(x[1], True)], acc)
+            leaves(x[3], conds + [(x[1], False)], acc)
+        else:
+            acc.append((conds, x))
+
+    def table(x):
+        acc = []
+        leaves(x, [], acc)
+        ats = {}
+        raw = []
+        for conds, leaf in acc:
+            cc = [(go(c), pol) for c, pol in conds]
+            for c, _ in cc:
+                _bool_atoms(c, ats)
+            raw.append((cc, go(leaf)))
+        if len(ats) > MAX_ATOMS:
+            return ('phi', go(x[1]), go(x[2]), go(x[3]))
+        keys = sorted(ats)
+        rows = []
+        for m in range(1 << len(keys)):
+            val = {k_: bool(m >> i & 1) for i, k_ in enumerate(keys)}
+            for cc, leaf in raw:
+                if all(_bool_eval(c, val) == pol for c, pol in cc):
+                    rows.append(digest(leaf))
+                    break
+            else:
+                rows.append('-')
+        distinct = []
+        for cc, leaf in raw:
+            d = digest(leaf)
+            if d not in [digest(q) for q in distinct]:
+                distinct.append(leaf)
+        distinct.sort(key=digest)
+        # atoms the outcome does not depend on are dropped, so that a redundant test (`a and not (b and a)`) leaves no trace
+        live = []
+        for i, k_ in enumerate(keys):
+            if any(rows[m] != rows[m ^ (1 << i)] for m in range(1 << len(keys))):
+                live.append(i)
+        if len(live) != len(keys):
+            rows = [rows[sum(((m2 >> j) & 1) << live[j] for j in range(len(live)))] for m2 in range(1 << len(live))]
+            keys = [keys[i] for i in live]
+        if len(set(rows)) == 1 and distinct:
+            return next(q for q in distinct if digest(q) == rows[0]) if rows[0] != '-' else ('phitable', (), (), tuple(distinct))
+        return ('phitable', tuple(ats[k_] for k_ in keys), tuple(rows), tuple(distinct))
+    return go(t)
+
+
+def cond_key(conds):
+    """canonical key of a path condition (a conjunction of (condition, polarity)): the atoms it depends on and its truth table"""
+    ats = {}
+    for c, _ in conds:
+        _bool_atoms(c, ats)
+    if len(ats) > MAX_ATOMS:
+        return tuple(sorted((digest(c), pol) for c, pol in atoms(conds)))
+    keys = sorted(ats)
+    rows = []
+    for m in range(1 << len(keys)):
+        val = {k_: bool(m >> i & 1) for i, k_ in enumerate(keys)}
+        rows.append(all(_bool_eval(c, val) == pol for c, pol in conds))
+    live = [i for i in range(len(keys)) if any(rows[m] != rows[m ^ (1 << i)] for m in range(1 << len(keys)))]
+    rows2 = tuple(rows[sum(((m2 >> j) & 1) << live[j] for j in range(len(live)))] for m2 in range(1 << len(live)))
+    return (tuple(keys[i] for i in live), rows2)
+
+
 def norm(t, lvnum=None, cvnum=None):
     if not isinstance(t, tuple):
         return t
-    return _resort(_renumber(simplify(t), lvnum, cvnum))
+    return _resort(_phitable(_renumber(simplify(t), lvnum, cvnum)))
 
 
 def _cond_key(conds, lvnum=None, cvnum=None):
@@ -211,7 +359,7 @@ def _cond_key(conds, lvnum=None, cvnum=None):
         if isinstance(c, tuple) and c and c[0] in ('inloop',):
             continue
         out.append((c, pol))
-    return tuple(sorted(((digest(norm(c, lvnum, cvnum)), pol) for c, pol in atoms(out))))
+    return cond_key([(norm(c, lvnum, cvnum), pol) for c, pol in out])
 
 
 class Summary:
@@ -226,6 +374,7 @@ class Summary:
                 for tn in ev.data[1]:
                     lvnum.setdefault((tn, ev.data[0]), len(lvnum))
         self.lvnum = lvnum
+        self._raw_returns = []
         # loop-carried values are ranked by what they are (loop, initial value, update), not by the order in which a traversal
         # happens to meet them: `x - llk` and `-llk + x` must give the same numbering
         loop_ord, ranked = {}, []
@@ -236,12 +385,16 @@ class Summary:
             if ev.kind == 'carry':
                 entry, body = ev.data
                 init = entry[2] if len(entry) > 2 else None
-                key = (loop_ord.get(id(ev.node), -1), digest(_mask(simplify(init), lvnum)) if init is not None else '',
-                       digest(_arith(_resort(_mask(simplify(body), lvnum)))))
+                key = (loop_ord.get(id(ev.node), -1), digest(_arith(_resort(_phitable(_mask(simplify(init), lvnum))))) if init is not None else '',
+                       digest(_arith(_resort(_phitable(_mask(simplify(body), lvnum))))))
                 ranked.append((key, len(ranked), (entry[1], digest(init) if init is not None else None)))
         cvnum = {}
-        for _, _, ident in sorted(ranked):
-            cvnum.setdefault(ident, len(cvnum))
+        per_loop = {}
+        for key, _, ident in sorted(ranked):
+            if ident not in cvnum:
+                k_ = per_loop.get(key[0], 0)
+                per_loop[key[0]] = k_ + 1
+                cvnum[ident] = f"{key[0]}.{k_}"        # numbered within their own loop: what other loops carry does not matter
         self.cvnum = cvnum
         for ev in r.events:
             k = ev.kind
@@ -271,7 +424,24 @@ class Summary:
                 data = ('const', d[0])
             else:
                 data = ('const', None)
-            self.entries.append((k, _cond_key(ev.conds, lvnum, cvnum), norm(data, lvnum, cvnum), ev.lineno))
+            self.entries.append((k, _cond_key(ev.conds, lvnum, cvnum), norm(data, lvnum, cvnum), ev.lineno, id(ev)))
+            if k == 'return':
+                self._raw_returns.append(ev)
+        # the returns outside loops are one result: `if c: return a` followed by `return b` is `return a if c else b`
+        top = [(i, e) for i, e in enumerate(self._raw_returns) if not any(isinstance(c, tuple) and c and c[0] == 'inloop' for c, _ in e.conds)]
+        if len(top) > 1:
+            val = top[-1][1].data[0] if top[-1][1].data[0] is not None else ('const', None)
+            for _, e in reversed(top[:-1]):
+                v = e.data[0] if e.data[0] is not None else ('const', None)
+                cond = None
+                for c, pol in e.conds:
+                    cc = c if pol else mknot(c)
+                    cond = cc if cond is None else mkbool('And', cond, cc)
+                val = mkphi(cond, v, val) if cond is not None else v
+            keep = {id(e) for _, e in top}
+            self.entries = [x for x in self.entries if x[4] not in keep]
+            self.entries.append(('return', cond_key([]), norm(val, lvnum, cvnum), top[-1][1].lineno, None))
+        self.entries = [x[:4] for x in self.entries]
         self.calls = []         # (callee qname, condkey, call term, lineno): every call evaluated, wherever it is written
         for t, conds, node in r.calls:
             self.calls.append((t[1], _cond_key(conds, lvnum, cvnum), norm(t, lvnum, cvnum), getattr(node, 'lineno', 0)))
@@ -280,7 +450,7 @@ class Summary:
             v = r.env.get(p)
             if v is not None and v != ('param', p):
                 # only mutation matters: a rebound parameter that is never returned is invisible to the caller
-                if any(x[0] in ('upd', 'out', 'havoc') for x in walk(v)) and _rooted_in_param(v, p):
+                if _rooted_in_param(v, p):
                     self.finals[p] = norm(v, lvnum, cvnum)
 
     def keys(self, arith=False):
@@ -291,18 +461,28 @@ class Summary:
 
 
 def _rooted_in_param(v, p):
-    while isinstance(v, tuple) and v and v[0] in ('upd', 'havoc', 'after', 'carried', 'phi', 'out'):
-        if v[0] in ('upd', 'havoc'):
-            v = v[1]
-        elif v[0] == 'after':
-            v = v[2]
-        elif v[0] == 'carried':
-            v = v[2] if len(v) > 2 else None
-        elif v[0] == 'phi':
-            return _rooted_in_param(v[2], p) or _rooted_in_param(v[3], p)
-        elif v[0] == 'out':
-            return True
-    return v == ('param', p)
+    """(is a later version of the array passed as parameter p, was written to on the way)"""
+    def chain(v):
+        wrote = False
+        while isinstance(v, tuple) and v:
+            h = v[0]
+            if h in ('upd', 'havoc'):
+                wrote = wrote or h == 'upd'
+                v = v[1]
+            elif h == 'after':
+                v = v[2]
+            elif h == 'carried':
+                v = v[2] if len(v) > 2 else None
+            elif h == 'out':
+                return True, True           # mutated by a callee (effect summary)
+            elif h == 'phi':
+                a, b = chain(v[2]), chain(v[3])
+                return (a[0] and b[0]), (a[1] or b[1]) or wrote
+            else:
+                break
+        return v == ('param', p), wrote
+    rooted, wrote = chain(v)
+    return rooted and wrote
 
 
 def compare(ctx, target_q, spec_node, rule, what):
@@ -351,7 +531,13 @@ def _defaults(fn):
 
 
 def _show_conds(ck):
-    return " and ".join((("" if pol else "not ") + c[:80]) for c, pol in ck)[:300]
+    try:
+        keys, rows = ck
+        if rows and isinstance(rows[0], bool):
+            return f"a condition on {len(keys)} atom(s) [{','.join(k[:6] for k in keys)}] true in {sum(rows)} of {len(rows)} cases"
+    except Exception:
+        pass
+    return str(ck)[:200]
 
 
 def compare_module(ctx, modname, names, rule, whats=None):
